@@ -35,7 +35,9 @@ LEVEL = "proof"
 RULE = (
     "cases: (a) estimator configuration x seed: fit(set 1), every predict method, fit(set 2) compared with a fresh object "
     "fitted on set 2 (all predict methods, exact), (b) estimator configuration x random sequence of 6-10 public calls "
-    "(fit/partial_fit on two data sets, predict*), (c) stream strategy / budget manager configuration x query/update over "
+    "(fit/partial_fit on two data sets, predict*), (b') history, set_params(<param>=<other valid value from a table: window_size, "
+    "metric_dict, n_neighbors, class_prior, priors, budget, w, theta, ...>), fit: used object vs fresh clone with the same "
+    "parameters (predictions exact; SlidingWindowClassifier: deque capacity and contents), (c) stream strategy / budget manager configuration x query/update over "
     "all chunks; get_params(deep=True) (dict-valued parameters by content), caller-owned model objects and input arrays are "
     "compared before/after every call. non-trivial = the two training sets yield different models (a) / the sequence "
     "contains at least two fits or updates (b, c); distinct = distinct (case, seed, sequence)"
@@ -96,9 +98,38 @@ def run_estimator_case(ctx, case, seed, observed, n_seq=1, seq_len=6):
         if "raised" in info:
             ctx.count("sequence_raised:" + info["raised"].split(":")[1].strip())
         _report(ctx, case, findings, dict(oracle="sequence", case=case.key, seed=seed, sseed=sseed, length=seq_len), observed)
+    for j in range(n_seq + 1):
+        # history, set_params(<param>=<other valid value>), refit: used object vs fresh clone with the same params
+        import random
+
+        sseed = seed * 1000 + 500 + j
+        findings, info = oracles.estimator_setparams_refit(case, seed, random.Random(sseed * 11 + len(case.key)))
+        ch = tuple(info.get("changes", ()))
+        ctx.case(("setparams", case.key, seed, ch, tuple(info.get("history", ()))), bool(ch), sample=dict(kind="set_params-then-refit", case=case.key, changes=ch, history=info.get("history")))
+        ctx.count("set_params_refits")
+        for pname, _ in ch:
+            ctx.count("set_params:" + pname)
+        if "raised" in info or "set_params_raised" in info:
+            ctx.count("set_params_refit_skipped")
+        _report(ctx, case, findings, dict(oracle="setparams", case=case.key, seed=seed, sseed=sseed), observed)
+
+
+def run_setparams_stream(ctx, case, seed, observed):
+    import random
+
+    findings, info = oracles.stream_setparams(case, seed, random.Random(seed * 13 + len(case.key)))
+    ctx.case(("stream-setparams", case.key, seed, info.get("changed")), info.get("changed") is not None and "raised" not in info,
+             sample=dict(kind="query/update with set_params in between", case=case.key, changed=info.get("changed")))
+    ctx.count("stream_set_params_sequences")
+    if info.get("changed"):
+        ctx.count("set_params:" + info["changed"][0])
+    if "raised" in info:
+        ctx.count("stream_set_params_raised")
+    _report(ctx, case, findings, dict(oracle="stream-setparams", case=case.key, seed=seed), observed)
 
 
 def run_stream_case(ctx, case, seed, observed):
+    run_setparams_stream(ctx, case, seed, observed)
     findings, info = oracles.stream_params(case, seed)
     ctx.case(("stream", case.key, seed), "raised" not in info, sample=dict(kind="stream query/update", case=case.key, seed=seed))
     ctx.count("stream_sequences")
@@ -108,6 +139,7 @@ def run_stream_case(ctx, case, seed, observed):
 
 
 def run_budget_case(ctx, case, seed, observed):
+    run_setparams_stream(ctx, case, seed, observed)
     findings, info = oracles.budget_params(case, seed)
     ctx.case(("budget", case.key, seed), "raised" not in info, sample=dict(kind="budget query_by_utility/update", case=case.key, seed=seed))
     ctx.count("budget_sequences")
@@ -153,7 +185,7 @@ def compare_with_summaries(ctx, g, observed):
         for m, kind, name in sorted(obs):
             if kind == "param-write" and name.split("__")[0] not in pred_params and not pred_other:
                 ctx.broken.append(f"translator missed: {cls}.{m} changes get_params()['{name}'] on the real code but no summary of the class has such a write")
-            if kind == "history-leak" and not pred_hist and not pred_params and not pred_other:
+            if kind in ("history-leak", "stale-after-set_params", "window-not-last-w") and not pred_hist and not pred_params and not pred_other:
                 ctx.broken.append(f"translator missed: refitting {cls} differs from a fresh clone ({name}) but fit_{cls}_historyFree and the frame obligations hold")
     for o in g["obligations"]:
         if o["value"] or o["cls"] not in run_classes:
@@ -200,6 +232,10 @@ def replay(payload):
         findings, _ = oracles.estimator_refit_vs_fresh(case, r["seed"])
     elif r["oracle"] == "sequence":
         findings, _ = oracles.estimator_call_sequence(case, r["seed"], random.Random(r["sseed"] * 7 + len(case.key)), length=r.get("length", 6))
+    elif r["oracle"] == "setparams":
+        findings, _ = oracles.estimator_setparams_refit(case, r["seed"], random.Random(r["sseed"] * 11 + len(case.key)))
+    elif r["oracle"] == "stream-setparams":
+        findings, _ = oracles.stream_setparams(case, r["seed"], random.Random(r["seed"] * 13 + len(case.key)))
     elif r["oracle"] == "stream":
         findings, _ = oracles.stream_params(case, r["seed"])
     else:
